@@ -415,7 +415,7 @@ def mon_hosts_c05(ops, obs, eng):
 
 
 # ------------------------------------------------------------------ placement / restore never use a NodeHost silent for longer than the timeout
-def placement_part(ck):
+def placement_part(ck, dbbin):
     """launch planning (real scheduler.launch, executor of C08) and maintenance rounds (real Drummer.maintainShards, sched engine of
     C02/C12): no request of any plan / batch places or restores a replica on a NodeHost whose last report is older than the timeout."""
     import c08, schedengine as se
@@ -505,6 +505,66 @@ def placement_part(ck):
             nb += 1
             ck.violation("%s: %s (context %s)" % (bad[0][0], bad[0][1], c.get("tag")), dict(se.replay_of(c, o, eng.ttl, eng.step), kind="monitor:c05_placement"))
     ck.cov["placement_sched_contexts"] = len(ctxs)
+    if not ck.violations:
+        fleet_part(ck, eng, dbbin)
+
+
+def fleet_part(ck, eng, dbbin):
+    """long histories of ONE evolving fleet (ticks + reports every round for two or more timeouts, real DB) consumed round after round by
+    ONE long-lived Drummer/scheduler object, with a placement due late in the sequence (schedpipe.gen_fleet_trace): every round's outcome
+    must be allowed by Sched.allowed for the CURRENT context, and a round may fail with 'not enough NodeHosts' / place nothing only if no
+    NodeHost that reported more recently than the timeout is free (schedpipe.mon_placement, from the report history)."""
+    import schedengine as se, schedpipe as sp
+    quick = ck.tier == "quick"
+    traces = [sp.gen_fleet_trace(ck.rng, eng.ttl, eng.step) for _ in range(36 if quick else 900)]
+    deng, res = sp.run_db(ck, dbbin, traces, "c05fleet")
+    if res is None:
+        return
+    ctxs = sp.chain_contexts(traces, res, ck.rng, "fleet", eng.step)
+    obs = eng.run_go(ctxs)
+    if obs is None:
+        return
+    flagged, nb = set(), 0
+    st = dict(rounds=len(ctxs), adds=0, errors=0, panics=0, due=0, longest=0, placements_later_than_2ttl=0)
+    first_tick = {}
+    for i, (c, o) in enumerate(zip(ctxs, obs)):
+        if not c.get("chain"):
+            first_tick = {h["addr"]: c["tick"] for h in c["hosts"]}
+        for h in c["hosts"]:
+            first_tick.setdefault(h["addr"], c["tick"])
+        v = se.View(c, eng.ttl)
+        st["due"] += bool(sp.placement_due(v))
+        st["errors"] += o[0] == "E"
+        st["panics"] += o[0] == "P"
+        adds = [q for q in o[1] if q["type"] == se.ADD] if o[0] == "B" else []
+        st["adds"] += len(adds)
+        # the dimension: a placement onto a NodeHost that the long-lived scheduler has known for longer than the timeout
+        st["placements_later_than_2ttl"] += sum(1 for q in adds if q["addrs"] and c["tick"] - first_tick.get(q["addrs"][0], c["tick"]) > eng.ttl)
+        st["longest"] = max(st["longest"], len(se.chain_prefix(ctxs, i)))
+        ck.count_case("fleet:" + se.ctx_line(c), nontrivial=(o[0] != "B" or bool(o[1])))
+        bad = sp.mon_placement(v, o, c)
+        if o[0] == "B":
+            bad += [b for b in se.mon_c02(v, o[1]) if "silent for" in b[1]] + [b for b in se.mon_c12(v, o[1], set())[0] if "silent for" in b[1]]
+        if bad:
+            flagged.add(i)
+            if nb < 3:
+                nb += 1
+                pre = se.chain_prefix(ctxs, i)
+                r = dict(se.replay_of(se.strip_trace(c), o, eng.ttl, eng.step), kind="monitor:" + bad[0][0], all_failed_monitors=bad[:10],
+                         db_ops=dbengine.trace_to_json(c["db_trace"]), rounds_on_this_scheduler_object=len(pre),
+                         sequence_go_input_lines=[se.ctx_line(x) for x in pre],
+                         note="db_ops: the commands applied to the real DB; after every round (tick + reports) the SCHEDULER_CONTEXT answer was given to ONE "
+                              "scheduler object (sequence_go_input_lines, in order); the last line is the failing round")
+                ck.violation("%s: %s (round %d on one scheduler object, context %s)" % (bad[0][0], bad[0][1], len(pre), c.get("tag")), r)
+    ck.cov["placement_fleet_sequences"] = dict(st, traces=len(traces))
+    ck.sample({"fleet_trace_head": dbengine.trace_to_json(traces[0][:10]), "rounds": sum(1 for op in traces[0] if op[0] == "LC")})
+    if ck.violations:
+        return
+    un = se.model_disagreements(ck, eng, ctxs, obs, flagged)
+    if un:
+        se.report_disagreements(ck, eng, ctxs, obs, un)
+    if un is not None:
+        ck.cov["placement_fleet_sequences"]["rounds_validated_against_model"] = len(ctxs)
 
 
 def run(ck):
@@ -517,7 +577,11 @@ def run(ck):
                       "Non-trivial = trace with a tick run of exactly ttl/step-1, ttl/step or ttl/step+1 ticks / context with a never-reported member "
                       "or a member whose report age is ttl-step, ttl or ttl+step; distinct by md5. placement part: real scheduler.launch on random and exact-size fleets "
                       "with one NodeHost silent for ttl..5 ttl, real Drummer.maintainShards on random / one-shard contexts: no plan or batch places or "
-                      "restores a replica on a NodeHost silent for longer than the timeout; NodeHost records: hosted-shards set = own last report + view members.")
+                      "restores a replica on a NodeHost silent for longer than the timeout; NodeHost records: hosted-shards set = own last report + view members. "
+                      "fleet sequences: one fleet (3 or 5 members per shard, 1..3 spare NodeHosts that report every round / late / with short gaps / stop and resume / die) "
+                      "ticking and reporting EVERY round for 2..4 timeouts through the real DB; every round's context goes to ONE long-lived scheduler object; a member's "
+                      "NodeHost goes silent at round ttl/step + {1,2,3,5,8}, the ADD and DELETE are applied by the fleet, a second member may fail; each round must be "
+                      "allowed by Sched.allowed for its current context and may fail / place nothing only if no NodeHost that reported within the timeout is free.")
     import time
     tm = [time.time()]
     ph = ck.cov.setdefault("phase_seconds", {})
@@ -571,5 +635,5 @@ def run(ck):
     run_classes(ck, eng.binp, ctxs, eng.params[0])
     lap("classes_engine")
     if not ck.violations:
-        placement_part(ck)
+        placement_part(ck, eng.binp)
         lap("placement_part")
